@@ -245,13 +245,13 @@ class TrimeshBoundary(BoundaryDomain):
     def sample_random_uniform(
         self, n=None, d=None, params=Points.empty(), device="cpu"
     ):
-        n = self.domain._compute_number_of_points(n, d, params)
+        n = TrimeshPolyhedron._compute_number_of_points(self, n, d, params)
         points = trimesh.sample.sample_surface(self.domain.mesh, n)[0]
         tensor_points = torch.tensor(points, device=device, dtype=torch.float32)
         return Points(tensor_points, self.space)
 
     def sample_grid(self, n=None, d=None, params=Points.empty(), device="cpu"):
-        n = self.domain._compute_number_of_points(n, d, params)
+        n = TrimeshPolyhedron._compute_number_of_points(self, n, d, params)
         points = trimesh.sample.sample_surface_even(self.domain.mesh, n)[0]
         points = torch.tensor(points, device=device, dtype=torch.float32)
         points = Sphere._append_random(self, points, n, params, device)
